@@ -127,6 +127,67 @@ let enc_patch (p : M.patch) =
     (hex p.M.prereq) (hex p.M.old_time) (hex p.M.new_time) (int_of_n p.M.old_mode) (int_of_n p.M.new_mode)
     (if p.M.hunks = [] then "-" else String.concat ";" (List.map enc_hunk p.M.hunks))
 
+(* ---------- L2: worlds ---------- *)
+let octal_of s = int_of_string ("0o" ^ s)
+let node_of kind mode data : M.node =
+  match kind with
+  | "R" -> M.Reg (unhex data, n_of_int (octal_of mode))
+  | "D" -> M.Dir (n_of_int (octal_of mode))
+  | "S" -> M.Sym (unhex data)
+  | _ -> M.Other (n_of_int (octal_of mode))
+let tree_of (s : string) : (M.n list * M.node) list =
+  List.map (fun e -> match String.split_on_char ':' e with
+    | [p; k; m; d] -> (unhex p, node_of k m d)
+    | _ -> failwith ("bad tree entry " ^ e)) (split ';' s)
+let enc_node (p, nd) =
+  match nd with
+  | M.Reg (d, m) -> Printf.sprintf "%s:R:%o:%s" (hex p) (int_of_n m) (hex d)
+  | M.Dir m -> Printf.sprintf "%s:D:%o:-" (hex p) (int_of_n m)
+  | M.Sym t -> Printf.sprintf "%s:S:0:%s" (hex p) (hex t)
+  | M.Other m -> Printf.sprintf "%s:O:%o:-" (hex p) (int_of_n m)
+let enc_tree (t : (M.n list * M.node) list) =
+  let l = List.sort compare (List.map enc_node t) in
+  if l = [] then "-" else String.concat ";" l
+let enc_op = function
+  | M.OChmod (p, m) -> Printf.sprintf "chmod:%s:%o" (hex p) (int_of_n m)
+  | M.ORename (a, b) -> Printf.sprintf "rename:%s:%s" (hex a) (hex b)
+  | M.OUnlink p -> "unlink:" ^ hex p
+  | M.ORmdir p -> "rmdir:" ^ hex p
+  | M.OMkdir p -> "mkdir:" ^ hex p
+  | M.OWrite (p, d) -> Printf.sprintf "write:%s:%d" (hex p) (List.length d)
+  | M.OSymlink (t, p) -> Printf.sprintf "symlink:%s:%s" (hex t) (hex p)
+  | M.OOpenRead p -> "read:" ^ hex p
+
+(* full option record: k=v,k=v *)
+let full_opts_of (s : string) : M.options =
+  let o = ref (opts_of s) in
+  List.iter (fun kv ->
+    match String.index_opt kv '=' with
+    | None -> ()
+    | Some i ->
+      let k = String.sub kv 0 i and v = String.sub kv (i+1) (String.length kv - i - 1) in
+      let d = !o in
+      o := (match k with
+        | "b" -> { d with M.save_backup = bool_of v }
+        | "c" -> { d with M.interpret_as_context = bool_of v }
+        | "n" -> { d with M.interpret_as_normal = bool_of v }
+        | "u" -> { d with M.interpret_as_unified = bool_of v }
+        | "e" -> { d with M.interpret_as_ed = bool_of v }
+        | "i" -> { d with M.patch_file_path = unhex v }
+        | "o" -> { d with M.out_file_path = unhex v }
+        | "r" -> { d with M.reject_file_path = unhex v }
+        | "p" -> { d with M.strip_size = z_of_dec v }
+        | "file" -> { d with M.file_to_patch = unhex v }
+        | "dry" -> { d with M.dry_run = bool_of v }
+        | "posix" -> { d with M.posix = bool_of v }
+        | "bim" -> { d with M.backup_if_mismatch = (if bool_of v then M.OBYes else M.OBNo) }
+        | "E" -> { d with M.remove_empty_files = (if bool_of v then M.OBYes else M.OBNo) }
+        | "z" -> { d with M.backup_suffix = unhex v }
+        | "B" -> { d with M.backup_prefix = unhex v }
+        | "ro" -> { d with M.read_only = (match v with "ignore" -> M.ROIgnore | "fail" -> M.ROFail | _ -> M.ROWarn) }
+        | _ -> d)) (split ',' s);
+  !o
+
 (* ---------- commands ---------- *)
 let spec_locate ws off mf lo ls h obs =
   let f = lines_of ls and hk = hunk_of h in
@@ -175,6 +236,15 @@ let run_case (toks : string list) : string =
   | ["NRANGE"; b] ->
     let (ok, h) = M.parse_normal_range M.empty_hunk (unhex b) in
     if ok then "RANGE " ^ enc_hunk h else "NORANGE"
+  | ["RUN"; os; um; flt; stdin; tree] ->
+    let o = full_opts_of os in
+    let w = { M.fs = tree_of tree; M.umask = n_of_int (octal_of um);
+              M.trace = []; M.fault = (if flt = "-" then None else Some (nat_of_int (int_of_string flt)));
+              M.stdout_data = [] } in
+    let r = M.run_patch o (unhex stdin) w in
+    Printf.sprintf "EXIT %d TREE %s EVENTS %s STDOUT %s TRACE %s" (int_of_nat r.M.rr_exit)
+      (enc_tree r.M.rr_world.M.fs) (hex r.M.rr_events) (hex r.M.rr_world.M.stdout_data)
+      (let t = List.map enc_op r.M.rr_world.M.trace in if t = [] then "-" else String.concat "," t)
   | ["NORMWS"; a] -> "BYTES " ^ hex (M.norm_ws (unhex a))
   | ["WSMATCH"; a; b] -> b01 (M.matches_ignoring_whitespace (unhex a) (unhex b))
   | ["MATCH"; ws; a; b] -> b01 (M.matches (line_of a) (line_of b) (bool_of ws))
